@@ -17,7 +17,7 @@ import (
 
 type freeRec = map[string]any
 
-var reRaceFunc = regexp.MustCompile(`(?m)^\s+(seehuhn\.de/go/pdf[^\s(]*)\(`)
+var reRaceFunc = regexp.MustCompile(`(?m)^\s+(seehuhn\.de/go/pdf\S*?)\(\)\s*$`)
 
 // raceKeys splits the race detector's output into reports and keys each by
 // the library functions on top of the two conflicting accesses.
